@@ -371,14 +371,14 @@ Proof.
 Qed.
 
 (* ---- typing of raw strings ---------------------------------------------------------------------------- *)
-Definition render_bool (b : bool) : str := if b then s2l "true" else s2l "false".
+Definition render_bool (b : bool) : str := if b then s_true else s_false.
 
 Lemma parse_render_bool b : parse_to_value (render_bool b) = VBool b.
 Proof. destruct b; vm_compute; reflexivity. Qed.
 
 (* a string that is neither a bool, an i64 nor a float lexeme *)
 Definition lookalike (s : str) : bool :=
-  str_eqb s (s2l "true") || str_eqb s (s2l "false") || is_some (parse_i64 s) || is_float_lexeme s.
+  str_eqb s s_true || str_eqb s s_false || is_some (parse_i64 s) || is_float_lexeme s.
 
 Lemma parse_not_lookalike s : lookalike s = false -> parse_to_value s = VStr s.
 Proof.
@@ -391,8 +391,8 @@ Qed.
 Lemma parse_lookalike s : lookalike s = true -> forall x, parse_to_value s <> VStr x.
 Proof.
   unfold lookalike, parse_to_value. intros H x.
-  destruct (str_eqb s (s2l "true")); [discriminate|].
-  destruct (str_eqb s (s2l "false")); [discriminate|].
+  destruct (str_eqb s s_true); [discriminate|].
+  destruct (str_eqb s s_false); [discriminate|].
   destruct (parse_i64 s); [discriminate|].
   cbn in H. rewrite H. discriminate.
 Qed.
@@ -452,10 +452,10 @@ Qed.
 
 Lemma digit_head_not_bool c r :
   is_digit c = true ->
-  str_eqb (c :: r) (s2l "true") = false /\ str_eqb (c :: r) (s2l "false") = false.
+  str_eqb (c :: r) s_true = false /\ str_eqb (c :: r) s_false = false.
 Proof.
   unfold is_digit. intros H. apply andb_prop in H as [H1 H2]. apply N.leb_le in H2.
-  change (s2l "true") with [116; 114; 117; 101]. change (s2l "false") with [102; 97; 108; 115; 101].
+  unfold s_true, s_false.
   cbn [str_eqb].
   split; (replace (c =? _) with false; [reflexivity|symmetry; apply N.eqb_neq; lia]).
 Qed.
@@ -477,7 +477,7 @@ Lemma parse_neg_digit_string c r n :
   parse_to_value (45 :: c :: r) = VInt (- n).
 Proof.
   intros Hd Hv Hr. unfold parse_to_value.
-  change (s2l "true") with [116; 114; 117; 101]. change (s2l "false") with [102; 97; 108; 115; 101].
+  unfold s_true, s_false.
   cbn [str_eqb N.eqb Pos.eqb andb].
   unfold parse_i64. change (45 =? 45) with true. cbv iota.
   rewrite Hv, Hr. reflexivity.
